@@ -5,7 +5,7 @@
 From Coq Require Import List String QArith.
 From Coq Require Import Floats.PrimFloat.
 From PAFC01 Require Import ModelTree.
-From PAFC12 Require Import Gen Model Proofs Proofs2 Proofs3 Proofs4 Proofs5 Proofs6 Proofs7 Proofs8 Proofs9 Proofs10.
+From PAFC12 Require Import Gen Model Proofs Proofs2 Proofs3 Proofs4 Proofs5 Proofs6 Proofs7 Proofs8 Proofs9 Proofs10 Proofs11.
 Import ListNotations.
 
 (* STRUCTURE, every mode.  The new model has exactly the places (paths) of the old one, and the place that held
@@ -238,12 +238,30 @@ Theorem C12_relative_width_nonneg : forall r m : Q, 0 <= r ->
 Proof. exact relative_width_nonneg. Qed.
 
 (* binary64, on a grid of 17 non-negative widths x 34 values of either sign (0, subnormal, 2^-1022, ..., 2^60, 2^300, max,
-   infinity): the computed relative width is never negative.  (A universally quantified binary64 statement needs the
-   FloatAxioms specification axioms, which are outside the trusted base; beyond the grid this rests on the correspondence.) *)
+   infinity): the computed relative width is never negative -- by computation, no axiom.  The universally quantified
+   statement is C12_relative_width_float below (it depends on the FloatAxioms specification axioms). *)
 Theorem C12_relative_width_float_grid :
   forallb (fun r => forallb (fun m => negb (sigma_negative_F (pm_rel_width_F r m)) && negb (sigma_negative_F (wm_relative_F r m)))
                             fgrid) fgrid_nonneg = true.
 Proof. exact relative_width_float_grid. Qed.
+
+(* binary64, ALL floats (the universally quantified form of the grid statement above; from the specification axioms
+   FloatAxioms.ltb_spec / leb_spec / abs_spec / mul_spec of the Coq standard library, Common/Float64Order.v): with a factor
+   r >= 0 (so not NaN; -0.0 and +infinity allowed) the relative width r * |m| is never negative whatever m is -- any
+   sign, zero, infinite, NaN (0 * inf = NaN is "not negative": the code's test `sigma < 0` is false) *)
+Theorem C12_relative_width_float : forall r m : PrimFloat.float, PrimFloat.leb 0 r = true ->
+  sigma_negative_F (pm_rel_width_F r m) = false /\ sigma_negative_F (wm_relative_F r m) = false.
+Proof. exact relative_width_float. Qed.
+
+Theorem C12_absolute_width_float : forall a : PrimFloat.float, PrimFloat.leb 0 a = true ->
+  sigma_negative_F (pm_abs_width_F a) = false /\ sigma_negative_F (wm_absolute_F a) = false.
+Proof. exact absolute_width_float. Qed.
+
+(* hence the two width hypotheses of C12_total_means_conditions hold of the binary64 leaves the correspondence runs *)
+Theorem C12_widths_not_negative_float_leaves : forall x : PrimFloat.float, PrimFloat.leb 0 x = true ->
+  l_neg_sigma PrimFloat.float fleaves (l_abs_width PrimFloat.float fleaves x) = false /\
+  forall m, l_neg_sigma PrimFloat.float fleaves (l_rel_width PrimFloat.float fleaves x m) = false.
+Proof. exact fleaves_widths_not_negative. Qed.
 
 (* bounded: succeeds for every vector of any sign over exact numbers (full); the uniform prior is centred on the
    value with half-width b.  In binary64 the statement fails for |value| >= 2^53 b (refuted). *)
@@ -361,3 +379,5 @@ Print Assumptions C12_holder_class_own.
 Print Assumptions C12_own_limits.
 Print Assumptions C12_own_replacement.
 Print Assumptions C12_total_limits.
+Print Assumptions C12_relative_width_float.
+Print Assumptions C12_widths_not_negative_float_leaves.
